@@ -17,9 +17,9 @@ EXTRA_UDP = ['valid+icmp', 'senderr-perm']
 EXTRA_TCP = ['valid+rst', 'senderr-pipe']
 
 OPS = {
-    'ET': ['read_sensor', 'read_setting', 'write_setting', 'read_device_info', 'read_runtime_data'],
-    'DT': ['read_sensor', 'write_setting', 'read_device_info', 'read_runtime_data'],
-    'ES': ['read_setting', 'write_setting', 'read_device_info', 'read_runtime_data', 'read_settings_data'],
+    'ET': ['read_sensor', 'read_setting', 'write_setting', 'read_device_info', 'read_runtime_data', 'send_command'],
+    'DT': ['read_sensor', 'write_setting', 'read_device_info', 'read_runtime_data', 'send_command'],
+    'ES': ['read_setting', 'write_setting', 'read_device_info', 'read_runtime_data', 'read_settings_data', 'send_command'],
 }
 
 
@@ -30,6 +30,10 @@ def op_call(inv, op):
         return lambda: inv.read_setting('modbus-100')
     if op == 'write_setting':
         return lambda: inv.write_setting('modbus-100', 5)
+    if op == 'send_command':
+        # the low-level public entry point: caller-supplied request bytes (those of a register read), default validator
+        raw = bytes(inv._protocol.read_command(100, 1).request)
+        return lambda: inv.send_command(raw)
     return getattr(inv, op)
 
 
@@ -116,11 +120,14 @@ H_LETTERS = collections.OrderedDict([
     ('errno', None),             # transport specific
     ('connect-error', None),     # the socket cannot be connected at all (UDP: ENETUNREACH at connect, TCP: refused)
     ('success-after-retry', ['drop', 'valid']),
+    ('success:cmd', ['valid']),  # ... through Inverter.send_command() instead of read_sensor()
+    ('silent:cmd', None),
 ])
 
 
 def h_script(cfg, name):
     R = cfg['R']
+    name = name.split(':')[0]
     if name == 'silent':
         return ['drop'] * (R + 1)
     if name == 'garbage':
@@ -143,7 +150,7 @@ def run_b(cfg, hist):
                 s.peer.forced_udp_conn = ['netunreach'] * (cfg['R'] + 1)
             else:
                 s.peer.forced_conn = ['refused'] * (cfg['R'] + 1)
-        obs = s.call(op_call(s.inv, 'read_sensor'))
+        obs = s.call(op_call(s.inv, 'send_command' if name.endswith(':cmd') else 'read_sensor'))
         s.peer.forced_udp_conn = []
         s.peer.forced_conn = []
         s.peer.forced = []
